@@ -171,6 +171,7 @@ func features() sqlgen.Features {
 	f := sqlgen.AllFeatures()
 	f.Merge = hx.Allowed("c15.merge")
 	f.DDLExtras = f.Merge // MERGE with a sub-query source
+	f.MySQL, f.NoMatchAgainst, f.NoShowDescribe = hx.Allowed("c15.mysql_forms"), true, true // REPLACE INTO, ON DUPLICATE KEY UPDATE
 	f.NoWindowFrame = !hx.Allowed("c15.window_frame_children") // frame offsets are not traversed (C14 finding)
 	return f
 }
